@@ -19,6 +19,11 @@
 (*                     fixed point: m_fix, res_fix, chi2map_fix            *)
 (*   chi2_fix, rchi2_fix, nn_fix, ll_fix, fom_fix   round(value*LogScale)  *)
 (*   same           all outputs bit-identical to the junk = 0 run          *)
+(*   order, nth     the order in which the quantities were read (the       *)
+(*                  definitions do not depend on it) and whether this is   *)
+(*                  the first or the second fit built on the same dataset  *)
+(*                  object; stable: a second read of every quantity gave   *)
+(*                  bit-identical values (the record carries the last)     *)
 (*   hasinv, inv    the inversion as reported by the inversion object:     *)
 (*       objs [p, reg]; lat: matrices are on the integer lattice of scale  *)
 (*       sc by construction of the instance; FH, H (full), FHr, Hr (the    *)
@@ -58,6 +63,7 @@ ScalarClauses(r) ==
       \o Cl("log-likelihood-is-minus-half-chi-squared-plus-normalization", Abs(2 * r.ll_fix + r.chi2_fix + r.nn_fix) <= 2)
       \o Cl("reduced-chi-squared-is-chi-squared-per-unmasked-pixel", 2 * Abs(r.rchi2_fix * n - r.chi2_fix) <= n + 2)
       \o Cl("masked-values-never-matter", r.same)
+      \o Cl("repeated-reads-agree", r.stable)
 
 IntClauses(r) ==
     LET L == MapLen(r)
